@@ -231,7 +231,7 @@ def ev(e, env, over=None, log=None, faults=None):
                                    or any(x is POISON for x in kw.values())):
             return POISON
         if log is not None:
-            log.calls.append((_fname(e.function), tuple(a), tuple(sorted(kw.items()))))
+            log.calls.append((_fname(e.function), tuple(a), tuple(kw.items())))   # in the node's order
         return ap(lambda: f(*a, **kw))
     if isinstance(e, p.Call):
         f = r(e.function)
@@ -337,6 +337,9 @@ def values_equal(a, b) -> bool:
         r = a == b
         if isinstance(r, np.ndarray):
             return bool(r.all())
+        if not r and isinstance(a, (float, complex)) and isinstance(b, (float, complex)) \
+                and cmath.isnan(a) and cmath.isnan(b):
+            return True     # (nan+nanj) from a negative base under a fractional power, both sides
         if not r and (isinstance(a, (float, complex)) or isinstance(b, (float, complex))):
             # floats are by-products (int/int, negative powers); CPython >= 3.12
             # sums floats with compensation, so a left fold may differ in the
